@@ -1,4 +1,4 @@
-import BeyondVerif.Generated.FormTables
+import BeyondVerif.Generated.HeapTables
 /-!
 Object-graph ("heap") model of `beyond.orbits.statevector.StateVector`, `orbit.Orbit`, `cov.Cov`.
 
